@@ -117,6 +117,33 @@ def no_effect(cx):
     cx.check(any(fk == VOTE for _, _, fk in ctl) and any(fk == TERM for _, _, fk in ctl), "control:MsgRequestVote", "control: with msg_type == MsgRequestVote both a term and a vote write are reachable (the query is not vacuous)")
 
 
+@obligation("PREVOTE.no_adopt", ["C16"], floor=2, kind="must-not-reach under a message constraint",
+            why="a pre-vote request, or a granted pre-vote response (stamped with the candidate's future term), must never make the receiver adopt that term")
+def no_adopt(cx):
+    step = cx.fn("Raft::step")
+    m = _m_param(step)
+    g = cx.pg(step)
+    mt = ("field", m, "Message.msg_type")
+    sites = []
+    for c in cx.prog.calls_out[step.key]:
+        sp, s = c
+        if s.kind != "call" or sp not in cx.prog.short or TERM not in cx.prog.modset_short(sp):
+            continue
+        args = call_args(cx, s)
+        if any(a == ("field", m, "Message.term") for a in args):
+            sites.append(s)
+    cx.check(bool(sites), "floor", "Raft::step has term-adopting calls (new term = m.term)")
+    cases = [("MsgRequestPreVote", [("in", mt, frozenset(["MsgRequestPreVote"]), MT)]),
+             ("granted MsgRequestPreVoteResponse", [("in", mt, frozenset(["MsgRequestPreVoteResponse"]), MT), ("is", ("field", m, "Message.reject"), False)])]
+    for name, assume in cases:
+        blocks = g.reach(assume)
+        hit = [s for s in sites if s.block in blocks]
+        cx.check(not hit, "no-adopt:" + name, "for a %s no call adopting m.term is reachable in Raft::step (reachable: %s)" % (name, [cx.where(s) for s in hit]), hit[0] if hit else None)
+    # control: an ordinary higher-term append does reach an adoption
+    blocks = g.reach([("in", mt, frozenset(["MsgAppend"]), MT)])
+    cx.check(any(s.block in blocks for s in sites), "control:MsgAppend", "control: for MsgAppend the adoption is reachable (the query is not vacuous)")
+
+
 @obligation("PREVOTE.precandidate", ["C16"], floor=1, kind="mod-set exclusion",
             why="a node that fails to gather a pre-vote quorum must not have raised its term")
 def precandidate(cx):
